@@ -66,9 +66,12 @@ def gen_series(rng, n, kind, missing_ok):
             # finite, but far from everyday magnitudes
             for _ in range(rng.randint(1, 2)):
                 vals[rng.randrange(n)] = rng.pick((1e10, -1e10, 1e20, -1e20, 1e300, 1e-300, 2.0**53 + 1, 9.3e9))
-        carrier = rng.weighted([("ndarray", 5), ("list", 4), ("masked", 2 if missing_ok else 0), ("masked_nan", 2 if missing_ok else 0), ("tuple", 1), ("readonly", 2), ("float32", 1), ("int_list", 1)])
+        carrier = rng.weighted([("ndarray", 5), ("list", 4), ("masked", 2 if missing_ok else 0), ("masked_nan", 2 if missing_ok else 0), ("tuple", 1), ("readonly", 2), ("float32", 1), ("int_list", 1), ("int64", 1), ("int32", 1)])
         if carrier == "int_list":
             vals = [None if v is None else float(int(v)) for v in vals]
+        if carrier in ("int64", "int32"):
+            # an integer-typed column (counts, decibar readings logged as integers): no missing marker exists in it
+            vals = [float(_small_int(rng, v)) for v in vals]
         return {"carrier": carrier, "values": vals, "under": rng.pick((0.0, 4.0, -1e6))}
     if kind == "tinp":
         return {"carrier": rng.weighted([("dt64", 6), ("epoch_list", 2), ("dt64_s", 2)]), "values": wl.gen_times(rng, n)}
@@ -90,6 +93,12 @@ def gen_series(rng, n, kind, missing_ok):
     raise ValueError(kind)
 
 
+def _small_int(rng, v):
+    if v is None or abs(v) >= 2**30:
+        return rng.randint(-9, 9)
+    return int(v)
+
+
 def gen_data(rng, fn, n=None):
     module, args, _, missing_ok = FUNCS[fn]
     if n is None and rng.chance(0.02):
@@ -106,6 +115,10 @@ def gen_data(rng, fn, n=None):
     if fn == "pressure_increasing_test":
         # NaN is the only missing marker this test is given (it documents none)
         data["inp"]["carrier"] = rng.pick(("ndarray", "list_nan"))
+        if rng.chance(0.4):
+            # pressures logged as whole decibars, rising or falling: an integer column has no missing marker
+            data["inp"]["carrier"] = rng.pick(("int64", "int32"))
+            data["inp"]["values"] = [float(_small_int(rng, v)) for v in data["inp"]["values"]]
     if fn == "valid_range_test" and n and rng.chance(0.4):
         # magnitudes at which "is this a number or an epoch time?" has different answers
         for _ in range(rng.randint(1, 2)):
@@ -179,8 +192,8 @@ def generate(rng, tier="quick"):
     names = sorted(rng.sample(names, k))
     mix = rng.pick(
         (
-            [("call", 6), ("repeat", 2), ("same_params", 2), ("mutate", 1), ("bad_add", 1)],
-            [("call", 3), ("repeat", 2), ("same_params", 4), ("mutate", 3), ("bad_add", 1)],
+            [("call", 6), ("repeat", 2), ("same_params", 2), ("mutate", 1), ("bad_add", 1), ("edit_config", 1)],
+            [("call", 3), ("repeat", 2), ("same_params", 4), ("mutate", 3), ("bad_add", 1), ("edit_config", 2)],
         ),
     )
     for _ in range(rng.randint(1, 30 if tier == "thorough" else 14)):
@@ -201,10 +214,26 @@ def generate(rng, tier="quick"):
             of = rng.pick(calls)
             src = ops[of]
             data = perturb_data(rng, src["data"])
-            if any(len(data[k]["values"]) != len(src["data"][k]["values"]) for k in data) or any(v["carrier"] in ("dt64_nat", "tuple", "readonly") for v in data.values()):
+            if any(len(data[k]["values"]) != len(src["data"][k]["values"]) for k in data) or any(v["carrier"] in ("dt64_nat", "tuple", "readonly", "int64", "int32", "int_list") for v in data.values()):
                 op = {"op": "repeat", "of": of, "dirty": dirty}
             else:
                 op = {"op": "mutate", "of": of, "fn": src["fn"], "data": data, "dirty": dirty}
+        elif kind == "edit_config":
+            # the caller edits its own list-of-dicts climatology in place (same list object, same length) and calls again
+            cl = [j for j in calls if ops[j]["fn"] == "climatology_test" and not ops[j]["params"].get("__as_object__") and not ops[j]["params"].get("__form__") and ops[j]["params"].get("config")]
+            if cl:
+                of = rng.pick(cl)
+                members = ops[of]["params"]["config"]
+                k = rng.randrange(len(members))
+                if rng.chance(0.5):
+                    lo = rng.dyadic(-8, 4)
+                    edit = {"how": "vspan", "k": k, "vspan": [lo, lo + rng.dyadic(0, 8)]}
+                else:
+                    fresh = wl.p_clim(rng)["config"]
+                    edit = {"how": "member", "k": k, "member": fresh[rng.randrange(len(fresh))]}
+                op = {"op": "edit_config", "of": of, "fn": "climatology_test", "edit": edit, "dirty": dirty}
+            else:
+                op = {"op": "repeat", "of": rng.pick(calls), "dirty": dirty}
         elif kind == "bad_add":
             cl = [j for j in calls if ops[j]["fn"] == "climatology_test" and ops[j]["params"].get("__as_object__")]
             if cl:
@@ -242,6 +271,9 @@ def build_series(spec):
         return arr
     if c == "float32":
         return np.array([np.nan if v is None else v for v in vals], dtype="float32")
+    if c in ("int64", "int32"):
+        # total on whatever the generators and the shrinker leave in the spec: no marker, no overflow
+        return np.array([0 if v is None or not abs(v) < 2**30 else int(v) for v in vals], dtype=c)
     if c == "list_nan":
         return [float("nan") if v is None else float(v) for v in vals]
     if c == "ndarray":
@@ -381,6 +413,10 @@ def run_history(scn):
                 else:
                     d[k][...] = new
             objs[i] = (fn, d, p)
+        elif op["op"] == "edit_config":
+            fn, d, p = objs[op["of"]]
+            apply_edit(p["config"], op["edit"], build=True)
+            objs[i] = (fn, d, p)
         elif op["op"] == "bad_add":
             fn, d, p = objs[op["of"]]
             try:
@@ -402,10 +438,18 @@ def run_history(scn):
     return {"recs": recs, "stale": stale}
 
 
+def apply_edit(config, edit, build=False):
+    """In-place edit of a list-of-dicts climatology: the list object and its length stay the same."""
+    if edit["how"] == "vspan":
+        config[edit["k"]]["vspan"] = list(edit["vspan"])
+    else:
+        config[edit["k"]] = json.loads(json.dumps(edit["member"]))
+
+
 def data_root(scn, i):
     """The op that created the data objects op i works on."""
     op = scn["ops"][i]
-    while op["op"] in ("repeat", "mutate", "bad_add"):
+    while op["op"] in ("repeat", "mutate", "bad_add", "edit_config"):
         i = op["of"]
         op = scn["ops"][i]
     return i
@@ -433,8 +477,18 @@ def data_source(scn, i):
 
 def effective(scn, i):
     """The (fn, data spec, params spec) an op amounts to."""
-    pr = scn["ops"][param_root(scn, i)]
-    return pr["fn"], scn["ops"][data_source(scn, i)]["data"], pr["params"]
+    r = param_root(scn, i)
+    pr = scn["ops"][r]
+    params = pr["params"]
+    edits = [scn["ops"][k]["edit"] for k in range(r + 1, i + 1) if scn["ops"][k]["op"] == "edit_config" and param_root(scn, k) == r]
+    if edits:
+        # the parameter object as it stands after the caller's in-place edits up to op i
+        params = copy.deepcopy(params)
+        for e in edits:
+            apply_edit(params["config"], e)
+        if any(e["how"] == "member" for e in edits):
+            params.pop("__tspan_forms__", None)
+    return pr["fn"], scn["ops"][data_source(scn, i)]["data"], params
 
 
 def run_reference(scn, i):
@@ -542,7 +596,7 @@ def execute(scn):
             prev = [
                 j
                 for j in range(i)
-                if scn["ops"][j]["op"] != "bad_add" and data_root(scn, j) == data_root(scn, i) and param_root(scn, j) == param_root(scn, i) and data_source(scn, j) == data_source(scn, i)
+                if scn["ops"][j]["op"] != "bad_add" and data_root(scn, j) == data_root(scn, i) and param_root(scn, j) == param_root(scn, i) and data_source(scn, j) == data_source(scn, i) and digest(effective(scn, j)[2]) == digest(effective(scn, i)[2])
             ]
             if prev:
                 orig = hist["recs"][prev[-1]]
@@ -575,13 +629,13 @@ def candidates(scn):
             if j == idx:
                 continue
             op = copy.deepcopy(op)
-            if op["op"] in ("repeat", "same_params", "mutate", "bad_add") and op["of"] == idx:
+            if op["op"] in ("repeat", "same_params", "mutate", "bad_add", "edit_config") and op["of"] == idx:
                 fn, data, params = effective(scn, j)
                 op = {"op": "call", "fn": fn, "data": copy.deepcopy(data), "params": copy.deepcopy(params), "dirty": op.get("dirty")}
             mapping[j] = len(new)
             new.append(op)
         for op in new:
-            if op["op"] in ("repeat", "same_params", "mutate", "bad_add"):
+            if op["op"] in ("repeat", "same_params", "mutate", "bad_add", "edit_config"):
                 op["of"] = mapping[op["of"]]
         c = copy.deepcopy(scn)
         c["ops"] = new
@@ -601,7 +655,7 @@ def candidates(scn):
                         c["ops"][i]["data"][k]["values"] = c["ops"][i]["data"][k]["values"][:cut]
                     yield c
             for k, spec in data.items():
-                if spec["carrier"] in ("list", "masked", "masked_nan", "tuple", "readonly", "float32", "int_list"):
+                if spec["carrier"] in ("list", "masked", "masked_nan", "tuple", "readonly", "float32", "int_list", "int64", "int32"):
                     c = copy.deepcopy(scn)
                     c["ops"][i]["data"][k]["carrier"] = "ndarray"
                     yield c
